@@ -2,8 +2,11 @@ package gen
 
 import (
 	"bytes"
+	"encoding/json"
 	"fmt"
 	"math/rand"
+	"os"
+	"strings"
 
 	"github.com/protobom/protobom/pkg/formats"
 	"github.com/protobom/protobom/pkg/native"
@@ -26,6 +29,11 @@ func RenderSafe(format string, d *sbom.Document, indent int) (b []byte, err erro
 // RenderWith serialises d with a fresh built-in driver object (the
 // reader/writer/formats packages are not touched).
 func RenderWith(format string, d *sbom.Document, indent int) ([]byte, error) {
+	return RenderWithFO(format, d, indent, nil)
+}
+
+// RenderWithFO is RenderWith with format options handed to the driver.
+func RenderWithFO(format string, d *sbom.Document, indent int, fo interface{}) ([]byte, error) {
 	var s native.Serializer
 	f := formats.Format(format)
 	switch {
@@ -36,12 +44,12 @@ func RenderWith(format string, d *sbom.Document, indent int) ([]byte, error) {
 	default:
 		return nil, fmt.Errorf("no built-in serializer for %s", format)
 	}
-	nd, err := s.Serialize(d, &native.SerializeOptions{}, nil)
+	nd, err := s.Serialize(d, &native.SerializeOptions{}, fo)
 	if err != nil {
 		return nil, err
 	}
 	var buf bytes.Buffer
-	if err := s.Render(nd, &buf, &native.RenderOptions{Indent: indent}, nil); err != nil {
+	if err := s.Render(nd, &buf, &native.RenderOptions{Indent: indent}, fo); err != nil {
 		return nil, err
 	}
 	return buf.Bytes(), nil
@@ -51,4 +59,60 @@ func RenderWith(format string, d *sbom.Document, indent int) ([]byte, error) {
 func SerialisableDoc(r *rand.Rand, tag string, maxNodes int) *sbom.Document {
 	g := New(r.Int63(), Profile{Serialisable: true, MaxNodes: maxNodes, Tag: tag})
 	return g.Document("https://example.com/verif/" + tag + "#DOCUMENT")
+}
+
+
+var dictOnce struct {
+	done       bool
+	keys, dict []string
+}
+
+// DriverDict returns what the instrumenter found in the driver packages of the tree under test:
+// constant strings that index string-keyed maps (likely option keys) and identifier-like string literals.
+func DriverDict() (keys, dict []string) {
+	if !dictOnce.done {
+		dictOnce.done = true
+		if b, err := os.ReadFile(os.Getenv("VERIF_WORK") + "/overlay/report.json"); err == nil {
+			var rep struct {
+				Keys []string `json:"driver_map_keys"`
+				Dict []string `json:"driver_strings"`
+			}
+			if json.Unmarshal(b, &rep) == nil {
+				dictOnce.keys, dictOnce.dict = rep.Keys, rep.Dict
+			}
+		}
+	}
+	return dictOnce.keys, dictOnce.dict
+}
+
+// FormatOptionSpec draws a map[string]string format option as "k=v" pairs: every discovered option key
+// plus a few dictionary words.
+func FormatOptionSpec(r *rand.Rand) []string {
+	keys, dict := DriverDict()
+	vals := []string{"vendor-a", "1", "true", "x y", "3"}
+	var out []string
+	for _, k := range keys {
+		out = append(out, k+"="+vals[r.Intn(len(vals))])
+	}
+	for i := r.Intn(3); i > 0 && len(dict) > 0; i-- {
+		out = append(out, dict[r.Intn(len(dict))]+"="+vals[r.Intn(len(vals))])
+	}
+	if len(out) == 0 {
+		out = append(out, "indent=3")
+	}
+	return out
+}
+
+// FormatOptionMap turns the "k=v" pairs back into the map.
+func FormatOptionMap(spec []string) map[string]string {
+	if len(spec) == 0 {
+		return nil
+	}
+	m := map[string]string{}
+	for _, kv := range spec {
+		if i := strings.Index(kv, "="); i >= 0 {
+			m[kv[:i]] = kv[i+1:]
+		}
+	}
+	return m
 }
